@@ -2652,9 +2652,11 @@ func (s *Server) serveConnCounted(c net.Conn, countConcurrency bool) error {
 		ctx.connRequestNum = connRequestNum
 		ctx.time = time.Now()
 
-		// Remember whether the request body is streamed from the connection:
-		// after a timeout the old ctx belongs to the timed out handler.
+		// Remember whether the request body is streamed from the connection
+		// and the protocol version of the request: after a timeout the old
+		// ctx belongs to the timed out handler.
 		_, streamedBody := ctx.Request.bodyStream.(*requestStream)
+		isHTTP11 := ctx.Request.Header.IsHTTP11()
 
 		// If a client denies a request the handler should not be called
 		if continueReadingRequest {
@@ -2707,7 +2709,7 @@ func (s *Server) serveConnCounted(c net.Conn, countConcurrency bool) error {
 			(s.CloseOnShutdown && s.stop.Load() == 1)
 		if connectionClose {
 			ctx.Response.Header.SetConnectionClose()
-		} else if !ctx.Request.Header.IsHTTP11() {
+		} else if !isHTTP11 {
 			// Set 'Connection: keep-alive' response header for HTTP/1.0 request.
 			// There is no need in setting this header for http/1.1, since in http/1.1
 			// connections are keep-alive by default.
